@@ -1,6 +1,8 @@
 """Translator: the `[TagActivator]` wiring of every .ini file under <root>/jellyfysh/config_files  ->  Lean data
 (`lean/JF/Gen/Wirings.lean`, one `def cfg_<name> : Wiring` per file + `allCfgs`) and the generated proof obligations
-(`lean/JF/Gen/WiringsSound.lean`, one `theorem cfg_sound_<name> : WiringSound cfg_<name> = true := by decide +kernel` per file).
+(`lean/JF/Gen/WiringsSound.lean`, one `theorem cfg_sound_<name> : WiringSound cfg_<name> = true := by decide +kernel` per file),
+and the handler modes of the mode discipline (`lean/JF/Gen/ModeWirings.lean`, one `def mcfg_<name> : ModeWiring` per file =
+`cfg_<name>` + one `HMode` per tagger; obligations in `lean/JF/Props/ModeDiscipline.lean`, E13).
 
 The .ini files are read with configparser exactly as `jellyfysh/base/factory.py` reads them (newlines removed, lists split
 at `,\\s*`, `name (class)` aliases, section = CamelCase of the name).  Everything that is a rule of the CODE is read from
@@ -9,7 +11,10 @@ the tree under translation, not hard-coded:
   * constructor parameters and defaults -> `ast` of the tagger classes in <root>/jellyfysh/activator/tagger/*.py
     (`number_event_handlers`, `activate`, `deactivate`, `internal_state_label`, the constant passed to `super().__init__`),
   * the handler pool size               -> `Tagger.initialize`: `[handler] + [deepcopy … for _ in range(1, n)]` = max(1, n),
-  * the event-handler family (kind)     -> `ast` class hierarchy of <root>/jellyfysh/event_handler/**.py.
+  * the event-handler family (kind)     -> `ast` class hierarchy of <root>/jellyfysh/event_handler/**.py,
+  * the handler mode (`hmode`, E13)     -> the same class hierarchy (`MODE_BY_BASE`) + the options `aim_mode` (switcher) and
+    `initial_active_identifier` (start of run) of the handler's section; what cannot be read becomes `unknown` (which no
+    `ModeSound` obligation accepts), never an exception: wirings without handler sections stay translatable.
 What cannot be read raises `TranslationError` (the framework reports a broken tie, never a silent default).
 """
 import ast, configparser, importlib.util, os, re
@@ -29,6 +34,12 @@ KIND_BY_BASE = [("StartOfRunEventHandler", "startOfRun"), ("EndOfRunEventHandler
                 ("SamplingEventHandler", "sampling"), ("DumpingEventHandler", "dumping"),
                 ("EndOfChainEventHandler", "endOfChain"), ("RootLeafUnitActiveSwitcher", "switcher"),
                 ("CellBoundaryEventHandler", "cellBoundary"), ("CellVetoEventHandler", "cellVeto")]
+# handler mode (lean/JF/Model/ModeWiring.lean: HMode) by base class, in this order of precedence
+MODE_BY_BASE = [("StartOfRunEventHandler", "start"), ("EndOfRunEventHandler", "neutral"), ("SamplingEventHandler", "neutral"),
+                ("DumpingEventHandler", "neutral"), ("EndOfChainEventHandler", "endOfChain"),
+                ("RootLeafUnitActiveSwitcher", "switcher"), ("CellBoundaryEventHandler", "cellBoundary"),
+                ("CompositeObjectsLifting", "rootUnit"), ("SingleActiveLeafUnitEventHandler", "leafUnit")]
+AIM_MODES = {"leaf_unit_active": "true", "root_unit_active": "false"}    # root_leaf_unit_active_switcher._Modes
 ORACLE_KIND = {"startOfRun": "start", "cellBoundary": "cell_boundary", "cellVeto": "interaction", "interaction": "interaction"}
 
 
@@ -91,6 +102,10 @@ class Tree:
             return "interaction"
         return "unknown"
 
+    def handler_mode(self, cls, opts=None):
+        """the `HMode` (Lean term) of event-handler class `cls` built from a section with options `opts`"""
+        return mode_of_bases(self.ancestors(cls) if cls in self.handler_bases else [], opts)
+
     def tagger_signature(self, cls):
         """-> (parameters {name: default or REQUIRED}, constants passed to super().__init__ as keywords)"""
         if cls not in self.tagger_classes:
@@ -119,6 +134,25 @@ class Tree:
             return ast.literal_eval(d)
         except Exception:
             return UNREADABLE
+
+
+def mode_of_bases(bases, opts=None):
+    """`HMode` as a Lean term from the names of a handler class and its ancestors (`Tree.ancestors`, or the `handler_bases` a
+    traced run recorded from the real class's MRO) and the options of the handler's section"""
+    opts = opts or {}
+    for base, mode in MODE_BY_BASE:
+        if base in bases:
+            if mode == "switcher":
+                aim = AIM_MODES.get(opts.get("aim_mode", "").replace("\n", "").strip())
+                return "unknown" if aim is None else f"switcher {aim}"
+            if mode == "start":
+                ident = opts.get("initial_active_identifier")
+                if ident is None:
+                    return "unknown"
+                n = len([x for x in _list(ident) if x.strip() != ""])
+                return "unknown" if n == 0 else f"start {'true' if n >= 2 else 'false'}"
+            return mode
+    return "unknown"
 
 
 REQUIRED, UNREADABLE = object(), object()
@@ -185,8 +219,10 @@ def wiring_of_config(tree, config, name="", ini=""):
         label = opts.get("internal_state_label")
         if label is not None:
             label = label.replace("\n", "")
+        hopts = dict(config.items(hsec)) if config.has_section(hsec) else {}
         taggers.append({"tag": tag, "section": sec, "cls": cls, "lean_cls": TAGGER_CLASS.get(cls, "unknown"),
                         "handler_section": hsec, "handler_cls": hcls, "kind": tree.handler_kind(hcls),
+                        "hmode": tree.handler_mode(hcls, hopts),
                         "creates": seq("create"), "trashes": seq("trash"), "activates": seq("activate"),
                         "deactivates": seq("deactivate"), "pool": max(1, neh), "label": label})
     tag_idx = {t["tag"]: i for i, t in enumerate(taggers)}       # later taggers win, as in _build_tagger_dictionary
@@ -295,6 +331,39 @@ def lean_files(ws):
     return "\n".join(data), "\n".join(thm)
 
 
+def is_composite(w):
+    """does the mode discipline apply: the run starts with a point mass of a composite object, or the wiring has a handler of
+    the root mode / a switcher"""
+    return any(t["hmode"] == "start true" or t["hmode"] == "rootUnit" or t["hmode"].startswith("switcher") for t in w["taggers"])
+
+
+def lean_mode_file(ws):
+    out = ["/- GENERATED by harness/translate.py from the .ini files and the event-handler classes of the tree under verification —",
+           "do not edit.  Handler modes for the mode discipline (JF/Model/ModeWiring.lean; obligations: JF/Props/ModeDiscipline.lean). -/",
+           "import JF.Gen.Wirings", "import JF.Model.ModeWiring", "namespace JF.Act.Gen", "open JF.Act", ""]
+    for w in ws:
+        out += [f"/-- `{w['ini']}`: " + ", ".join(f"{t['tag']} = {t['handler_cls']}" for t in w["taggers"]) + " -/",
+                f"def mcfg_{w['name']} : ModeWiring := {{", f"  w := cfg_{w['name']}",
+                "  hm := [" + ", ".join("." + t["hmode"] for t in w["taggers"]) + "] }", ""]
+    out += ["/-- every shipped wiring -/",
+            "def allModeCfgs : List ModeWiring := [" + ", ".join("mcfg_" + w["name"] for w in ws) + "]", "",
+            "/-- the shipped wirings with composite objects (`translate.py: is_composite`) -/",
+            "def compositeCfgs : List ModeWiring := [" + ", ".join("mcfg_" + w["name"] for w in ws if is_composite(w)) + "]", ""]
+    # the mode assignment as the harness computes it (Python mirror of `modeOf` used on recorded runs by harness/modecorr.py), to be
+    # compared with Lean's own (`py_mode_tables_agree` in JF/Props/ModeDiscipline.lean)
+    b = lambda x: "true" if x else "false"
+    try:
+        from harness import modecorr
+        tabs = ["[" + ", ".join("([" + ", ".join(b(x) for x in s) + "], ." + m + ")" for s, m in modecorr.mode_table(w)) + "]"
+                for w in ws if is_composite(w)]
+    except Exception:          # never break the generation of the wirings; `py_mode_tables_agree` then fails visibly
+        tabs = []
+    out += ["/-- `harness/modecorr.py: mode_table` of every configuration in `compositeCfgs` (reachable activation states and their modes) -/",
+            "def pyModeTables : List (List (AState × WMode)) := [", ",\n".join("  " + t for t in tabs) + " ]", "",
+            "end JF.Act.Gen", ""]
+    return "\n".join(out)
+
+
 def _write_if_changed(path, content):
     if os.path.exists(path) and open(path).read() == content:
         return False
@@ -313,7 +382,8 @@ def regenerate(root):
     data, thm = lean_files(ws)
     a = _write_if_changed(os.path.join(GEN, "Wirings.lean"), data)
     b = _write_if_changed(os.path.join(GEN, "WiringsSound.lean"), thm)
-    return {"configs": len(ws), "changed": a or b}
+    c = _write_if_changed(os.path.join(GEN, "ModeWirings.lean"), lean_mode_file(ws))
+    return {"configs": len(ws), "changed": a or b or c}
 
 
 if __name__ == "__main__":
